@@ -269,4 +269,5 @@ def run(ctx):
             r0.violation(r0.id + "::witness", d, "")
         for r in ctx.rules[n0:]:
             r.min_instances = 0
-    ctx.reconcile(ctx.rules[n0:], lambda c: "plugins/clean.py" in c, (w[0], [], w[2]) if True else w, "src/gwf/plugins/clean.py::clean", "src/gwf/plugins/clean.py:1")
+    if not w[1]:
+        ctx.reconcile(ctx.rules[n0:], lambda c: "plugins/clean.py" in c, w, "src/gwf/plugins/clean.py::clean", "src/gwf/plugins/clean.py:1")
